@@ -518,6 +518,18 @@ def r6(ctx):
                  expected="numba.njit / numba.prange only", found=what)
     if gm is not None and not conf:
         ctx.ok(guard, "the guard module takes njit and prange from Numba and nothing else", role="numba-runtime")
+    # NumPy's floating-point error state (np.errstate / np.seterr) governs interpreted NumPy code only: a compiled kernel ignores it,
+    # so "raise" turns an underflow into an exception in one execution mode and not in the other
+    errs = []
+    for f_ in ana.prog.functions.values():
+        for cs_ in ana.res.calls(f_):
+            t_ = str(cs_.callee.target or "")
+            if t_ in ("numpy.errstate", "numpy.seterr", "numpy.seterrcall"):
+                errs.append((f_, cs_, t_))
+    for f_, cs_, t_ in errs:
+        ctx.fail(f_, f"`{t_}` changes how floating-point flags are handled around code that runs compiled under JIT: the interpreted and the compiled "
+                     "kernels then differ (one raises, the other returns)", line=cs_.node.lineno, role=f"fp-error-state:{short(f_.qualname)}:{t_}",
+                 expected="default floating-point error handling", found=unparse(cs_.node, 60))
     n_k = 0
     for fi, d in njit_kernels(ana):
         n_k += 1
